@@ -21,7 +21,7 @@ struct Case {
 }
 
 fn oor_positions(n: usize) -> Vec<usize> {
-    vec![n, n + 1, n + 7, usize::MAX / 2, usize::MAX - 1, usize::MAX]
+    vec![n, n + 1, n + 7, usize::MAX / 2, (1usize << 63) - 1, 1usize << 63, (1usize << 63) + 1, usize::MAX - 5, usize::MAX - 4, usize::MAX - 3, usize::MAX - 2, usize::MAX - 1, usize::MAX]
 }
 
 fn body(c: &Case, lx: &mut Local) {
@@ -120,17 +120,66 @@ fn main() {
     });
     rep.run_sub(
         "selection-and-partition",
-        &format!("all weak-order patterns of length 0..={} x get_from_sorted_mut / partition_mut at every in-range position and at n, n+1, n+7, MAX/2, MAX-1, MAX; get_many_from_sorted_mut (length <= {}) for every subset alone and with one out-of-range entry (n, n+1, MAX) at every position, two out-of-range entries, a repeated one; ALL pivot sequences", nmax, nmany),
+        &format!("all weak-order patterns of length 0..={} x get_from_sorted_mut / partition_mut at every in-range position and at n, n+1, n+7, MAX/2, 2^63-1, 2^63, 2^63+1, MAX-5..=MAX; get_many_from_sorted_mut (length <= {}) for every subset alone and with one out-of-range entry (n, n+1, MAX) at every position, two out-of-range entries, a repeated one; ALL pivot sequences", nmax, nmany),
         cases,
         body,
+    );
+
+    // long request lists (dense-request paths) with one out-of-range entry somewhere
+    let lcases = [33usize, 40, 64, 65, 100, 130].iter().flat_map(|&n| {
+        (0..4u8).flat_map(move |kind| {
+            let req: Vec<usize> = match kind {
+                0 => (0..n).collect(),                   // every position
+                1 => (0..n).rev().step_by(2).collect(), // half of them, decreasing
+                2 => (0..n).map(|i| (i * 7) % n).collect(), // permutation (or with repeats)
+                _ => (0..n / 3 + 1).collect(),
+            };
+            let mut out: Vec<Case> = vec![Case { pat: (0..n).map(|i| (i % 5) as u8).collect(), op: Op::Many(req.clone()) }];
+            for oor in [n, n + 1, usize::MAX] {
+                for pos in [0usize, req.len() / 2, req.len()] {
+                    let mut r = req.clone();
+                    r.insert(pos, oor);
+                    out.push(Case { pat: (0..n).map(|i| (i % 5) as u8).collect(), op: Op::Many(r) });
+                }
+            }
+            out
+        })
+    });
+    rep.run_sub(
+        "long-request-lists",
+        "arrays of length 33, 40, 64, 65, 100, 130 x request lists (every position; every second, decreasing; a permutation; the first third) alone and with one out-of-range entry (n, n+1, MAX) at the front, in the middle and at the end; pivot policies first / last / middle (one execution each)",
+        lcases,
+        |c, lx| {
+            let n = c.pat.len();
+            let vals: Vec<i32> = c.pat.iter().map(|&r| r as i32).collect();
+            let req = match &c.op {
+                Op::Many(v) => v.clone(),
+                _ => unreachable!(),
+            };
+            let in_range = req.iter().all(|&i| i < n);
+            lx.nontrivial(true);
+            lx.count(if in_range { "in_range_cases" } else { "out_of_range_cases" }, 1);
+            for pol in Policy::ALL {
+                lx.explore(&PivotMode::Bounded { policy: pol, bound: 0 }, |lx| {
+                    let mut a = Array1::from(vals.clone());
+                    let r = guarded(|| a.get_many_from_sorted_mut(&Array1::from(req.clone())).len());
+                    match (&r, in_range) {
+                        (Ok(k), false) => lx.fail("C16/out-of-range-accepted", || format!("get_many_from_sorted_mut with {} requests incl. an out-of-range one on an array of length {} returned a map of {} entries instead of panicking (policy {:?})", req.len(), n, k, pol)),
+                        (Err(m), true) => lx.fail("C16/in-range-panic", || format!("get_many_from_sorted_mut with {} in-range requests on an array of length {} panicked: {}", req.len(), n, m)),
+                        _ => {}
+                    }
+                    hash_of(&r.is_ok())
+                });
+            }
+        },
     );
 
     // Bins::index
     let cases = (0..=5usize).flat_map(|len| sequences(len, 4)).flat_map(|e| {
         let m = e.len();
-        (0..=m + 2).chain(vec![usize::MAX - 1, usize::MAX]).map(move |i| BinsCase { edges: e.clone(), i }).collect::<Vec<_>>()
+        (0..=m + 2).chain(vec![usize::MAX / 2, (1usize << 63) - 1, 1usize << 63, usize::MAX - 6, usize::MAX - 5, usize::MAX - 4, usize::MAX - 3, usize::MAX - 2, usize::MAX - 1, usize::MAX]).map(move |i| BinsCase { edges: e.clone(), i }).collect::<Vec<_>>()
     });
-    rep.run_sub("bins-index", "every edge collection of length 0..=5 over 4 values (unsorted, duplicates) x index 0..=len+2, MAX-1, MAX", cases, |c, lx| {
+    rep.run_sub("bins-index", "every edge collection of length 0..=5 over 4 values (unsorted, duplicates) x index 0..=len+2, MAX/2, 2^63-1, 2^63, MAX-6..=MAX", cases, |c, lx| {
         let vals: Vec<i32> = c.edges.iter().map(|&d| d as i32 * 2).collect();
         let mut d = vals.clone();
         d.sort();
@@ -168,9 +217,11 @@ fn main() {
                 gcases.push(GridCase { axes: axes.clone(), index: idx });
             }
             for k in 0..d {
-                let mut idx = vec![0; d];
-                idx[k] = usize::MAX;
-                gcases.push(GridCase { axes: axes.clone(), index: idx });
+                for big in [usize::MAX, usize::MAX - 1, usize::MAX - 2, usize::MAX - 3, 1usize << 63] {
+                    let mut idx = vec![0; d];
+                    idx[k] = big;
+                    gcases.push(GridCase { axes: axes.clone(), index: idx });
+                }
             }
             if d > 0 {
                 gcases.push(GridCase { axes: axes.clone(), index: vec![0; d - 1] });
